@@ -79,6 +79,9 @@ var detTemplates = []detTemplate{
 	{"rename auto", []string{"rename", "-i", "@T", "-a", "-m", "@O1", "-l", "5"}, false, ""},
 	{"rename auto internal", []string{"rename", "-i", "@T", "-a", "--internal", "-m", "@O1", "-l", "6"}, false, ""},
 	{"rename map", []string{"rename", "-i", "@T", "-m", "@M"}, false, ""},
+	{"rename map chain", []string{"rename", "-i", "@T", "-m", "@M2"}, false, ""},
+	{"rename map chain revert", []string{"rename", "-i", "@T", "-m", "@M2", "-r"}, false, ""},
+	{"reformat nexus translate numeric", []string{"reformat", "nexus", "-i", "@T3", "--translate"}, false, ""},
 	{"rename regexp", []string{"rename", "-i", "@T", "-e", "t(\\d)", "-b", "x$1", "-m", "@O1"}, false, ""},
 	{"acr acctran", []string{"acr", "-i", "@R", "--states", "@S", "--algo", "acctran", "--out-states", "@O1", "--out-steps", "@O2"}, false, ""},
 	{"acr deltran", []string{"acr", "-i", "@R", "--states", "@S", "--algo", "deltran", "--out-states", "@O1", "--out-steps", "@O2"}, false, ""},
@@ -196,6 +199,14 @@ func detInputs(dir string, seed int64) map[string]string {
 	in["@M"] = w("map.txt", mb.String())
 	in["@L"] = w("tips.txt", lb.String())
 	in["@G"] = w("groups.txt", "t1,n1,n2\nt4,n3\n")
+	// a map whose new names are other entries' old names (chains and cycles)
+	var cb strings.Builder
+	for i, n := range names {
+		cb.WriteString(fmt.Sprintf("%s\t%s\n", n, names[(i+1)%len(names)]))
+	}
+	in["@M2"] = w("mapchain.txt", cb.String())
+	// tips named with small integers (the translate table of the Nexus writer renames through numbers)
+	in["@T3"] = w("numeric.nw", "((3:1,1:1):1,(2:1,(5:1,4:1):1):1,6:1);\n((2:1,1:1):1,(3:1,(6:1,4:1):1):1,5:1);\n")
 	return in
 }
 
@@ -399,8 +410,9 @@ var libTemplates = []libTemplate{
 			return "", err
 		}
 		m := map[string]string{}
-		for i, n := range ts[0].AllTipNames() {
-			m[n] = fmt.Sprintf("n%d", i)
+		all := ts[0].AllTipNames()
+		for i, n := range all {
+			m[n] = all[(i+1)%len(all)]
 		}
 		if err := ts[0].Rename(m); err != nil {
 			return "", err
